@@ -20,6 +20,8 @@ static ALLOC: sys::Counting = sys::Counting;
 macro_rules! dispatch {
     ($id:expr, $f:ident ( $($args:expr),* )) => {
         match $id {
+            "C01" => $f::<props::c01::C01>($($args),*),
+            "C02" => $f::<props::c02::C02>($($args),*),
             "C03" => $f::<props::c03::C03>($($args),*),
             "C04" => $f::<props::c04::C04>($($args),*),
             "C05" => $f::<props::c05::C05>($($args),*),
@@ -28,8 +30,10 @@ macro_rules! dispatch {
             "C08" => $f::<props::c08::C08>($($args),*),
             "C09" => $f::<props::c09::C09>($($args),*),
             "C10" => $f::<props::c10::C10>($($args),*),
+            "C16" => $f::<props::c16::C16>($($args),*),
             "C18" => $f::<props::c18::C18>($($args),*),
             "C19" => $f::<props::c19::C19>($($args),*),
+            "C20" => $f::<props::c20::C20>($($args),*),
             other => {
                 eprintln!("gv: unknown property {other}");
                 3
